@@ -1,3 +1,174 @@
-From WalModel Require Import Eval.
-Theorem tmp : True. Proof. exact I. Qed.
-Print Assumptions tmp.
+(** C15 — standard-library forms and user macros equal their defining equations.
+    Statements only; proofs in proofs/MacroProofs.v (evaluation of the macro bodies of
+    Generated.v = the current std.wal, with the operands as variables).
+    [template name args] is what the body of macro [name] evaluates to in the frame the
+    expand pass creates for the call (name args...): parameters bound to the UNEVALUATED
+    operands (so a macro receives its arguments unevaluated, and operands appear in the
+    expansion exactly where the equation shows them - evaluated once, or per iteration).
+    PARTIAL: cond is stated for closed clause conditions (it compares each clause head with the
+    symbol else); the semantic corollaries for the defun-defined helpers (set-index, trace-index,
+    filter, reverse, sort) and user defmacro/macroexpand agreement are decided by the
+    differential check (library form vs defining expression on fresh interpreters). *)
+From WalModel Require Import Cases.
+From WalModel.proofs Require Import MacroProofs.
+Local Open Scope Z_scope.
+
+Theorem when_equation : forall c b1 b2, template "when" [c; b1; b2] = Some (WL [VOp OIf; c; WL [VOp ODo; b1; b2]]).
+Proof. exact when_eq. Qed.
+Print Assumptions when_equation.
+
+Theorem when_eq1uation : forall c b, template "when" [c; b] = Some (WL [VOp OIf; c; WL [VOp ODo; b]]).
+Proof. exact when_eq1. Qed.
+Print Assumptions when_eq1uation.
+
+Theorem unless_equation : forall c b1 b2, template "unless" [c; b1; b2] = Some (WL [VOp OIf; WL [VOp ONot; c]; WL [VOp ODo; b1; b2]]).
+Proof. exact unless_eq. Qed.
+Print Assumptions unless_equation.
+
+Theorem for_list_equation : forall x l b1 b2,
+  template "for/list" [WL [x; l]; b1; b2] = Some (WL [VOp OMap; WL [VOp OFn; WL [x]; WL [VOp ODo; b1; b2]]; l]).
+Proof. exact for_list_eq. Qed.
+Print Assumptions for_list_equation.
+
+Theorem for_equation : forall x l b,
+  template "for" [WL [x; l]; b] =
+  Some (WL [VOp OLet; WL [WL [tmp 1; WL [VOp OMap; WL [VOp OFn; WL [x]; WL [VOp ODo; b]]; l]]];
+            WL [VOp OIf; tmp 1; WL [VOp OLast; tmp 1]; WL [VOp OQuote; WL []]]]).
+Proof. exact for_eq. Qed.
+Print Assumptions for_equation.
+
+Theorem dowhile_equation : forall b1 b2 c, template "dowhile" [b1; b2; c] = Some (WL [VOp ODo; b1; b2; WL [VOp OWhile; c; b1; b2]]).
+Proof. exact dowhile_eq. Qed.
+Print Assumptions dowhile_equation.
+
+Theorem until_equation : forall c b1 b2, template "until" [c; b1; b2] = Some (WL [VOp OWhile; WL [VOp ONot; c]; b1; b2]).
+Proof. exact until_eq. Qed.
+Print Assumptions until_equation.
+
+Theorem set_bang_equation : forall k v, template "set!" [k; v] = Some (WL [VOp OSet; WL [k; v]]).
+Proof. exact set_bang_eq. Qed.
+Print Assumptions set_bang_equation.
+
+Theorem defun_equation : forall f ps b1 b2, template "defun" [f; ps; b1; b2] = Some (WL [VOp ODefine; f; WL [VOp OFn; ps; f; b1; b2]]).
+Proof. exact defun_eq. Qed.
+Print Assumptions defun_equation.
+
+Theorem car_equation : forall l, template "car" [l] = Some (WL [VOp OFirst; l]).
+Proof. exact car_eq. Qed.
+Print Assumptions car_equation.
+
+Theorem cdr_equation : forall l, template "cdr" [l] = Some (WL [VOp ORest; l]).
+Proof. exact cdr_eq. Qed.
+Print Assumptions cdr_equation.
+
+Theorem cadr_equation : forall l, template "cadr" [l] = Some (WL [Sy "car"; WL [Sy "cdr"; l]]).
+Proof. exact cadr_eq. Qed.
+Print Assumptions cadr_equation.
+
+Theorem inc_equation : forall n s m s', template "inc" [VSym n s; VSym m s'] =
+  Some (WL [VOp OSet; WL [VSym n s; WL [VOp OAdd; VSym n s; VInt 1]]; WL [VSym m s'; WL [VOp OAdd; VSym m s'; VInt 1]]]).
+Proof. exact inc_eq. Qed.
+Print Assumptions inc_equation.
+
+Theorem dec_equation : forall n s, template "dec" [VSym n s] =
+  Some (WL [VOp OSet; WL [VSym n s; WL [VOp OIf; WL [VOp ODefinedP; WL [VOp OQuote; VSym n s]]; WL [VOp OSub; VSym n s; VInt 1]; VInt (-1)]]]).
+Proof. exact dec_eq. Qed.
+Print Assumptions dec_equation.
+
+Theorem rising_equation : forall e, template "rising" [e] =
+  Some (WL [VOp OAnd; WL [VOp OEq; e; VInt 0]; WL [VOp OEq; WL [VOp OReval; e; VInt 1]; VInt 1]]).
+Proof. exact rising_eq. Qed.
+Print Assumptions rising_equation.
+
+Theorem falling_equation : forall e, template "falling" [e] =
+  Some (WL [VOp OAnd; WL [VOp OEq; e; VInt 1]; WL [VOp OEq; WL [VOp OReval; e; VInt 1]; VInt 0]]).
+Proof. exact falling_eq. Qed.
+Print Assumptions falling_equation.
+
+Theorem stable_equation : forall e, template "stable" [e] = Some (WL [VOp OEq; e; WL [VOp OReval; e; VInt 1]]).
+Proof. exact stable_eq. Qed.
+Print Assumptions stable_equation.
+
+Theorem unstable_equation : forall e, template "unstable" [e] = Some (WL [VOp ONeq; e; WL [VOp OReval; e; VInt 1]]).
+Proof. exact unstable_eq. Qed.
+Print Assumptions unstable_equation.
+
+Theorem always_equation : forall b1 b2, template "always" [b1; b2] = Some (WL [VOp OWhenever; VBool true; b1; b2]).
+Proof. exact always_eq. Qed.
+Print Assumptions always_equation.
+
+Theorem count_equation : forall c, template "count" [c] = Some (WL [VOp OLength; WL [VOp OFind; c]]).
+Proof. exact count_eq. Qed.
+Print Assumptions count_equation.
+
+Theorem signed_equation : forall s, template "signed" [s] =
+  Some (WL [VOp OBitsToSint; WL [VOp OConvertBin; s; WL [VOp OSignalWidth; WL [VOp OQuote; s]]]]).
+Proof. exact signed_eq. Qed.
+Print Assumptions signed_equation.
+
+Theorem step_until_equation : forall c, template "step-until" [c] =
+  Some (WL [VOp OWhile; WL [VOp OAnd; WL [VOp ONot; c]; WL [VOp OStep]]; Sy "INDEX"]).
+Proof. exact step_until_eq. Qed.
+Print Assumptions step_until_equation.
+
+Theorem step_while_equation : forall c, template "step-while" [c] =
+  Some (WL [VOp OWhile; WL [VOp OAnd; c; WL [VOp OStep]]; Sy "INDEX"]).
+Proof. exact step_while_eq. Qed.
+Print Assumptions step_while_equation.
+
+Theorem sum_equation : forall l, template "sum" [l] = Some (WL [VOp OFold; VOp OAdd; VInt 0; l]).
+Proof. exact sum_eq. Qed.
+Print Assumptions sum_equation.
+
+Theorem timeframe_equation : forall b1 b2, template "timeframe" [b1; b2] =
+  Some (WL [VOp OLet; WL [WL [tmp 1; WL [Sy "ALL-INDICES"]]; WL [tmp 2; WL [VOp ODo; b1; b2]]];
+            WL [Sy "for"; WL [Sy "trace"; tmp 1];
+                WL [VOp OInGroup; WL [VOp OFirst; Sy "trace"];
+                    WL [VOp OStep; WL [VOp OSub; WL [VOp OSecond; Sy "trace"]; Sy "INDEX"]]]];
+            tmp 2]).
+Proof. exact timeframe_eq. Qed.
+Print Assumptions timeframe_equation.
+
+Theorem append_equation : forall xs x, template "append" [xs; x] =
+  Some (WL [VOp OAdd; xs; WL [VOp OLet; WL [WL [tmp 1; x]];
+                              WL [VOp OIf; WL [VOp OListP; tmp 1]; WL [VOp OList; tmp 1]; tmp 1]]]).
+Proof. exact append_eq. Qed.
+Print Assumptions append_equation.
+
+Theorem partition_equation : forall p xs, template "partition" [p; xs] =
+  Some (WL [VOp OFold;
+            WL [VOp OFn; WL [tmp 1; tmp 2];
+                WL [VOp OIf; WL [p; tmp 2];
+                    WL [VOp OList; WL [Sy "append"; WL [VOp OSlice; tmp 1; VInt 0]; tmp 2]; WL [VOp OSlice; tmp 1; VInt 1]];
+                    WL [VOp OList; WL [VOp OSlice; tmp 1; VInt 0]; WL [Sy "append"; WL [VOp OSlice; tmp 1; VInt 1]; tmp 2]]]];
+            WL [VOp OQuote; WL [WL []; WL []]]; xs]).
+Proof. exact partition_eq. Qed.
+Print Assumptions partition_equation.
+
+Theorem cond_equation : forall b1 b2 b3 b4,
+  template "cond" [WL [WL [VOp OGt; Sy "x"; VInt 2]; b1; b2]; WL [VInt 0; b3]; WL [Sy "else"; b4]] =
+  Some (WL [VOp OIf; WL [VOp OGt; Sy "x"; VInt 2]; WL [VOp ODo; b1; b2];
+            WL [VOp OIf; VInt 0; WL [VOp ODo; b3]; WL [VOp OIf; VBool true; WL [VOp ODo; b4]]]]).
+Proof. exact cond_eq. Qed.
+Print Assumptions cond_equation.
+
+Theorem cond_eq_no_elseuation : forall b1 b2,
+  template "cond" [WL [VBool false; b1]; WL [Sy "ready"; b2]] =
+  Some (WL [VOp OIf; VBool false; WL [VOp ODo; b1]; WL [VOp OIf; Sy "ready"; WL [VOp ODo; b2]]]).
+Proof. exact cond_eq_no_else. Qed.
+Print Assumptions cond_eq_no_elseuation.
+
+(** hygiene: every binder a library macro introduces around an operand is either supplied by
+    an operand (the loop variable of for / for/list) or a temporary [tmp k] - see the equations
+    of for, append, timeframe, partition above - and a temporary can never be a user variable *)
+Theorem temporaries_are_gensyms : forall k, exists rest, tmp k = VSym (String "$"%char rest) (Some O).
+Proof. exact tmp_name. Qed.
+Print Assumptions temporaries_are_gensyms.
+
+Theorem reader_symbols_never_start_with_dollar : forall c r, is_sym_first c = true -> String c r <> String "$"%char r.
+Proof. exact reader_symbol_first_char. Qed.
+Print Assumptions reader_symbols_never_start_with_dollar.
+
+Theorem gensym_counter_increases : forall args st v st', op_gensym args st = Ok v st' -> st_gensym st' = st_gensym st + 1.
+Proof. exact gensym_increases. Qed.
+Print Assumptions gensym_counter_increases.
